@@ -18,9 +18,7 @@ from the performance with what the generator wrote.
 """
 import collections
 import inspect
-import math
 import traceback
-from fractions import Fraction
 
 import numpy as np
 
@@ -42,6 +40,10 @@ ASSUMPTIONS = ["score-side and performance-side note arrays (Part.note_array / P
                "times against what the generator wrote",
                "tolerance 2e-5*max(1, largest performed time) on seconds and 2e-5*max(1, largest |score onset|) on beats "
                "(parameters and note arrays are float32); rows of the matched table 2e-6 relative",
+               "beat_period_standardized: the decoder's beat period standardized*std+mean is float32, so its rounding is relative to "
+               "|mean|+|standardized*std|; that amount (2.5e-7 relative, propagated to onsets and durations) is added to the "
+               "tolerance for this normalisation only",
+               "alignments without a single match on both sides are outside the domain (only get_matched_notes is run on them)",
                "performed durations below the codec's documented floor 60/200*0.25 s are not generated and not judged",
                "order among notes of equal (score onset, pitch) in the matched table is not judged; row order of "
                "get_matched_notes is not judged (the statement orders 'the matched-note table')",
@@ -359,18 +361,23 @@ def diagnose(rec, fails):
             out["encoded-parameter-not-finite:" + nonfinite[0]] = fails
         return out
     keycount = collections.Counter(v["key"] for v in s_info.values())
-    rest = []
-    # notes sharing (score onset, pitch) with another matched note: named as that mechanism only if nothing else fails
-    all_in_equal_groups = all(f[1] in s_info and keycount[s_info[f[1]]["key"]] > 1 for f in fails)
-    for f in fails:
-        comp, sid = f[0], f[1]
-        info = s_info.get(sid)
-        if info is not None and keycount[info["key"]] > 1 and all_in_equal_groups:
-            out.setdefault("notes-of-equal-score-onset-and-pitch-get-each-others-parameters", []).append(f)
-        elif info is not None and comp == "duration" and not info["dur"] > 0:
-            out.setdefault("grace-note-duration-not-reproduced", []).append(f)
-        else:
-            rest.append(f)
+    # three classes of failing notes: members of a group of matched notes with equal (score onset, pitch); grace notes
+    # whose duration is off; everything else.  Group members are named as that mechanism only when nothing else fails
+    # (a general fault of the codec hits them too).
+    def in_group(f):
+        return f[1] in s_info and keycount[s_info[f[1]]["key"]] > 1
+
+    def grace_dur(f):
+        return f[1] in s_info and f[0] == "duration" and not s_info[f[1]]["dur"] > 0
+    grouped = [f for f in fails if in_group(f)]
+    graces = [f for f in fails if not in_group(f) and grace_dur(f)]
+    rest = [f for f in fails if not in_group(f) and not grace_dur(f)]
+    if graces:
+        out["grace-note-duration-not-reproduced"] = graces
+    if grouped and not rest:
+        out["notes-of-equal-score-onset-and-pitch-get-each-others-parameters"] = grouped
+    else:
+        rest = rest + grouped
     if rest:
         # does a decoder of the documented parameter meaning reproduce the performance from these parameters?
         ids = rec["ids"]
@@ -461,7 +468,7 @@ BUCKETS = ["n4n", "n4n", "extras", "extras", "unison", "deadpan", "dangling", "l
 
 
 def plan(tier, seed):
-    n = 640 if tier == "quick" else 8000
+    n = 960 if tier == "quick" else 12000
     items = [["gen", BUCKETS[i % len(BUCKETS)], i] for i in range(n)]
     if tier == "thorough":
         items += [["fixture", f] for f in ("Chopin_op10_no3_p01.match", "mozart_k265_var1.match", "test_fuer_elise.match")]
